@@ -978,3 +978,14 @@ M("c11-pins-freed-for-half-the-connectors", "C11", "cola/libavoid/router.cpp",
   "        if ((*i)->hasFixedRoute())\n        {\n            // Not rerouted below, so it keeps the pins its route ends at.",
   "        if ((*i)->hasFixedRoute() || (*i)->isInitialised())\n        {\n            // Not rerouted below, so it keeps the pins its route ends at.",
   mention=["PIN-BOOKKEEPING"])
+M("c15-alignment-table-empty-unguarded", "C15", "cola/libdialect/nearalign.cpp",
+  "    if (nodes.empty()) return;\n", "    if (nodes.size() > 100000) return;\n", mention=["PREV-OF-END-NONEMPTY"])
+M("c15-topology-nodes-replaced", "C15", "cola/libtopology/cola_topology_addon.cpp",
+  "    if (generateNonOverlapConstraints && topologyNodes.empty())", "    if (generateNonOverlapConstraints)", mention=["CALLERS-TOPOLOGY-KEPT"])
+M("c15-sepco-constraints-not-freed-on-reject", "C15", "cola/libdialect/graphs.cpp",
+  "    int result = project(opts2, sepco->dim, accept);\n", "    int result = project(opts2, sepco->dim, accept);\n    if (result < 0) return result;\n",
+  mention=["GENERATED-CONSTRAINTS-FREED"])
+M("c15-dropped-equality-not-freed", "C15", "cola/libtopology/orthogonal_topology.cpp",
+  "                        delete constraint;\n                        it = valid.erase(it);", "                        it = valid.erase(it);", mention=["GENERATED-CONSTRAINTS-FREED"])
+M("c15-thrown-message-from-local", "C15", "cola/libvpsc/solve_VPSC.cpp",
+  "            static std::string message;\n", "            std::string message;\n", mention=["THROWN-POINTER-OUTLIVES-THROW"])
